@@ -237,6 +237,9 @@ type routerOpt struct {
 }
 
 func (g *G) routerLine(id int, o routerOpt) {
+	if !o.lock && g.chance(0.15) { // the lock must be invisible to a single goroutine
+		o.lock = true
+	}
 	g.emit("router %d %s %s %s %s %s %s %s %s %s %s %d %s", id, encB(o.name), b2s(o.trace), b2s(o.lock), b2s(o.recover),
 		encB(o.domain), encKVs(o.icpt), b2s(o.cors), encL(o.origins), encL(o.allowH), encL(o.exposed), o.maxAge, b2s(o.cred))
 }
@@ -557,6 +560,8 @@ func streamAllow(g *G) { // C04
 }
 
 func streamCrash(g *G) { // C05
+	g.emit("methods")
+	g.routerLine(900001, routerOpt{name: ""}) // NewRouter("") panics with a message, not a runtime fault
 	rid := 1
 	for !g.full() {
 		g.history(rid, histCfg{useIc: g.chance(0.5), trace: g.chance(0.3), probes: 4, siblings: g.chance(0.5), invalid: 0.3, oddRequest: 0.5}, 6+g.intn(12))
@@ -914,6 +919,8 @@ func streamGroup(g *G) { // C13
 			}
 		}
 		g.emit("group-names %d", gid)
+		g.emit("group-routes %d", gid)
+		g.emit("group-router %d %s", gid, encB(g.pick([]string{"r1", "r2", "r3", "r4", "nope", ""})))
 		g.groupRequests(gid, 25)
 		// matcher expressions on their own, entered with parameters that an inner member may overwrite
 		for i := 0; i < 12; i++ {
@@ -932,6 +939,8 @@ func streamGroup(g *G) { // C13
 		}
 		g.emit("group-remove %d %s", gid, encB(g.pick(names)))
 		g.emit("group-names %d", gid)
+		g.emit("group-routes %d", gid)
+		g.emit("group-router %d %s", gid, encB(g.pick([]string{"r1", "r2", "r3", "r4", "nope", ""})))
 		g.groupRequests(gid, 10)
 		gid++
 	}
